@@ -27,7 +27,10 @@ Bases == <<
   B("+", <<"Typeof", <<"Sel", I("a"), "b", FALSE>>>>, <<"Pre", "!", I("c")>>),
   B("||", B("??", <<"Paren", B(",", I("a"), I("b"))>>, I("c")), B("&&", I("d"), I("e"))),
   B("==", B("<", B("*", <<"Pre", "-", I("a")>>, <<"Pre", "!!", I("b")>>), I("c")), N1),
-  B("|", B("&", I("a"), I("b")), B("^", <<"Pre", "~", I("c")>>, <<"Lit", "Kw", "this">>))
+  B("|", B("&", I("a"), I("b")), B("^", <<"Pre", "~", I("c")>>, <<"Lit", "Kw", "this">>)),
+  B("=", <<"Sel", I("a"), "b", FALSE>>, B("*", I("c"), N1)),
+  <<"Cond", I("a"), I("b"), B("=", I("$x"), I("d"))>>,
+  B(",", B(",", I("a"), I("b")), I("c"))
 >>
 TokS(t) == [i \in 1..Len(Unparse(t)) |-> <<Unparse(t)[i][1], Unparse(t)[i][2], FALSE>>]
 
